@@ -52,8 +52,8 @@ def run(ctx):
     ctx.not_decided = (
         "The solvency inequality itself over histories, and the relation between the recorded balances of all markets sharing "
         "a vault and the vault's real token balance (needs values / all instructions). Token movements recorded inside "
-        "gmsol-model actions (deposit/withdraw/decrease via the Bank trait) and the swap-path validations (delayed to the "
-        "next hop) belong to C04/C44. Escrow-to-vault transfers of user actions are C23.")
+        "gmsol-model actions (deposit/withdraw/decrease via the Bank trait) belong to C04/C08; the swap-path out/in pairing is "
+        "shared with C44 (family `pairing`), the delayed swap-path validations stay with C44. Escrow-to-vault transfers of user actions are C23.")
     ctx.rule("balance-writers", "long/short_token_balance are stored only by record_transferred_in/out")
     ctx.rule("record-cells", "(pure||long) -> long balance else short; checked_add (in) / checked_sub (out) of `amount`, propagated")
     ctx.rule("bank-route", "Bank methods resolve the side by to_token_side(token) and call the like-named helper")
@@ -61,6 +61,8 @@ def run(ctx):
     ctx.rule("validate-sides", "long token always, short token iff !pure; pure folds exclusions into the long side")
     ctx.rule("transfer-paired", "direct vault movement: CPI amount == recorded amount, same guard, right direction; shift pairs out/in")
     ctx.rule("must-validate", "token-moving operations cannot return Ok without validate_market_balance(s) on their market")
+    ctx.rule("pairing", "swap paths: each recorded transfer-out of a market is matched by the next recorded transfer-in of the same "
+             "token and amount on another market (tokens are never counted in two markets sharing a vault) — shared with C44")
 
     _writers(ctx, prog)
     _cells(ctx, prog)
@@ -68,6 +70,10 @@ def run(ctx):
     _validate(ctx, prog)
     _paired(ctx, prog)
     _must_validate(ctx, prog)
+    # the cross-market bookkeeping of multi-hop swaps (a necessary condition of "recorded balances of all markets sharing a
+    # vault never exceed the vault's balance"): reuse C44's pairing family
+    from . import C44
+    C44._pairing(ctx, prog)
 
 
 # -----------------------------------------------------------------------------
